@@ -21,10 +21,17 @@ int main(int argc, char *argv[]) {
     return 1;
   }
   util::AutoProbing<Entry, util::IdentityHash> table;
+  // The table reserves key 0 for empty buckets and reports it as always present,
+  // so whether a line hashing to 0 is to be subtracted is kept in a flag.
+  bool subtract_zero = false;
   // Load subtraction into table.
   for (util::StringPiece line : util::FilePiece(argv[1])) {
     Entry entry;
     entry.key = util::MurmurHashNative(line.data(), line.size(), 1);
+    if (entry.key == 0) {
+      subtract_zero = true;
+      continue;
+    }
     util::AutoProbing<Entry, util::IdentityHash>::MutableIterator it;
     table.FindOrInsert(entry, it);
   }
@@ -32,7 +39,7 @@ int main(int argc, char *argv[]) {
   for (util::StringPiece line : util::FilePiece(0)) {
     uint64_t key = util::MurmurHashNative(line.data(), line.size(), 1);
     util::AutoProbing<Entry, util::IdentityHash>::ConstIterator it;
-    if (!table.Find(key, it)) {
+    if (key == 0 ? !subtract_zero : !table.Find(key, it)) {
       out << line << '\n';
     }
   }
